@@ -305,13 +305,19 @@ def rule_obj(body, I, M):
 RULES["obj"] = rule_obj
 
 PROPS["C07"] = dict(
-    disabled=True, na_reason="model and correspondence tie built; theorems are being proved",
     level="proof",
     lean_module="RefmtProofs.Props.C07",
-    theorems=[],
+    theorems=["Refmt.C07.marshal_wf", "Refmt.C07.marshal_wf_strong", "Refmt.C07.struct_count_matches_walk_strong",
+              "Refmt.C07.marshal_bound", "Refmt.C07.marshal_bound_two", "Refmt.C07.marshal_bound_plain_fixed",
+              "Refmt.C07.marshal_fuel_mono", "Refmt.C07.marshal_fuel_mono_le"],
     streams=[dict(name="marshal", gen="marshal", rule="obj")],
     title="the marshaller emits one finite, well-formed token stream",
-    claim="(work in progress)",
+    claim="Theorems (every type table, atlas, transform library, value): whenever the marshaller model succeeds its tokens are the "
+          "flattening of one token tree whose declared lengths all equal the number of entries that follow, whose map keys are untagged "
+          "string tokens and whose leaves are scalar tokens (so opens/closes balance, tags sit only on first tokens); the struct header "
+          "count equals the pairs walked for every combination of ignored / unreachable / omitted fields; token count <= 5*nodes (<= 2*nodes "
+          "without unions) under stated atlas conditions; the result is independent of fuel once it is not a fuel exhaustion (the model "
+          "terminates: no endless stream). Tie: zoo values through the real Marshaller under recover with a step cap.",
     rule_text="values of ~95 zoo types (compiled named types and reflect-composed ones: scalars of every kind, byte slices/arrays, slices, "
               "arrays, maps incl. struct keys, pointers, untyped slots, structs with omitempty/ignored/embedded/embedded-pointer fields, "
               "unions, transforms, unsupported kinds) x 5 atlas configurations, type-directed random values with nil at every position; "
@@ -333,6 +339,12 @@ PROPS["C13"] = dict(
 
 def rule_roundtrip(body, I, M):
     i = I.get("I", "")
+    if body.startswith("unmbytes "):
+        if _bad_impl(i):
+            return dict(corr_ok=False, prop_ok=False, nontrivial=True, bucket="crash", why="implementation " + i)
+        ok = (I.get("O", "ok") == "ok")
+        return dict(corr_ok=(i == M.get("M")), prop_ok=ok, nontrivial=True, bucket="foreign-" + i.rsplit("/", 1)[-1],
+                    why=("" if ok else "oracle: " + I.get("O", "")) or ("" if i == M.get("M") else "implementation and model differ"))
     if i == "def" or body[:2] in ("T ", "A ", "Y "):
         return dict(corr_ok=True, prop_ok=True, nontrivial=False, bucket="def", why="")
     if _bad_impl(i):
@@ -537,4 +549,22 @@ PROPS["C17"] = dict(
               "atlases mapping the same Go types differently, interleaved), with calls that fail (unrepresentable values, wrong-kind items, "
               "types without mapping); every call also run on a fresh instance (oracle) and on the stateless model; and streams of 2..20 items "
               "marshalled back to back by one Marshaller and read back by one Unmarshaller, in both formats; non-trivial = at least 2 calls/items",
+)
+
+PROPS["C20"] = dict(
+    level="proof",
+    lean_module="RefmtProofs.Props.C20",
+    theorems=["Refmt.C20.struct_tag_first", "Refmt.C20.transform_tag_first", "Refmt.C20.tagged_occurrence",
+              "Refmt.C20.tagged_through_pointer", "Refmt.C20.tagged_in_untyped", "Refmt.C20.wire_tag",
+              "Refmt.C20.untyped_unknown_tag", "Refmt.C20.untyped_known_tag"],
+    streams=[dict(name="tags", gen="tags", rule="roundtrip")],
+    title="CBOR tags identify registered types and are never dropped",
+    claim="Theorems: the struct-map and transform machines put exactly the entry's tag on the first token they emit; hence wherever a "
+          "value of a registered tagged type is marshalled (any position: marshalV at that type, through non-nil pointers, inside an "
+          "untyped slot) the first token of that occurrence carries the tag; the CBOR encoding of such an item begins with the tag head; "
+          "an untyped slot given a tagged token reconstructs the registered type, and an unregistered tag is an error. Tie: tagged zoo "
+          "atlases (tags across head sizes incl. 0), tagged items at every position, round trips through untyped slots, foreign CBOR.",
+    rule_text="values with tagged items (struct-map and transform entries, tags 0, 23, 24, 100, 1100, 65536, 2^32) at top level, in struct "
+              "fields, map values, slice elements, behind pointers and inside untyped slots, round-tripped through CBOR under the tagged "
+              "atlases; plus foreign CBOR carrying registered and unregistered tags on every item kind decoded into untyped slots",
 )
